@@ -1,20 +1,89 @@
-"""Re-run exactly one recorded violation (bin/check P --replay path)."""
+"""Re-run exactly one recorded violation (bin/check P --replay path).  exit 1 if it violates again, 0 if not, 2 on
+machinery problems."""
 import json
 
 
-def main(prop, path):
+def _sim(prop, rep, path):
     from harness import scenario, tlcrun
+    tr, meta = scenario.run_scenario(rep["scenario"])
+    with tlcrun.Scratch() as d:
+        v, st = tlcrun.monitor_traces([tr], d, shards=1)
+    if v[0] is None:
+        print("MACHINERY-FAILURE: no verdict", st["errors"][:1])
+        return 2
+    bad = [b for b in v[0]["bad"] if b[0].startswith(prop)]
+    print("replayed %s: clauses false: %s" % (path, bad))
+    for c, line, kf in bad:
+        if not kf:
+            print("VIOLATION property=%s replay=%s" % (prop, path))
+            return 1
+    return 0
+
+
+def _generic(result, prop, path):
+    """modules return a failure description (or a tuple starting with one), None/falsy = clean"""
+    fail = result[0] if isinstance(result, tuple) else result
+    if isinstance(fail, int):
+        return fail
+    if fail:
+        print("replayed %s: %s" % (path, str(fail)[:600]))
+        print("VIOLATION property=%s replay=%s" % (prop, path))
+        return 1
+    print("replayed %s: no violation" % path)
+    return 0
+
+
+def main(prop, path):
     rep = json.load(open(path))
-    if rep.get("kind") == "sim-scenario":
-        tr, meta = scenario.run_scenario(rep["scenario"])
-        with tlcrun.Scratch() as d:
-            v, st = tlcrun.monitor_traces([tr], d, shards=1)
-        bad = [b for b in (v[0] or {"bad": []})["bad"] if b[0].startswith(prop)]
-        print("replayed %s: verdict %s" % (path, bad))
-        for c, line, kf in bad:
-            if not kf:
-                print("VIOLATION property=%s replay=%s" % (prop, path))
-                return 1
-        return 0
+    kind = rep.get("kind", "")
+    try:
+        if kind == "sim-scenario":
+            return _sim(prop, rep, path)
+        if kind == "tlc-counterexample":
+            print(rep.get("tlc_output", "")[-6000:])
+            print("(a counterexample of the Core model; re-run `bin/check %s` to re-check the model)" % prop)
+            return 0
+        if kind == "c15-reload":
+            from harness import check_c15reload, tlcrun
+            with tlcrun.Scratch() as d:
+                r = check_c15reload._scenario(rep["seed"], d)
+                v, st = tlcrun.monitor_traces([r["trace"]], d, shards=1)
+            bad = [b for b in (v[0] or {"bad": []})["bad"] if b[0].startswith("C15") and not b[2]]
+            return _generic(bad and str(bad), prop, path)
+        if kind.startswith("c20"):
+            from harness import check_c20
+            return _generic(check_c20.replay_one(rep), prop, path)
+        if kind.startswith("c07"):
+            from harness import check_c07
+            return _generic(check_c07.replay_case(rep), prop, path)
+        if kind.startswith("c08"):
+            from harness import check_c08live
+            return _generic(check_c08live.replay_case(rep), prop, path)
+        if kind.startswith("c12"):
+            from harness import check_c12
+            return _generic(check_c12.replay_one(rep), prop, path)
+        if kind.startswith("c13"):
+            from harness import check_c13a
+            return _generic(check_c13a.replay(rep), prop, path)
+        if kind.startswith("c16"):
+            from harness import check_c16
+            return _generic(check_c16.replay(path), prop, path)
+        if kind.startswith("c17"):
+            from harness import check_c17
+            return _generic(check_c17.replay_main(prop, path), prop, path)
+        if kind.startswith("c18") or kind.startswith("signum"):
+            from harness import check_c18b
+            return _generic(check_c18b.replay_case(rep), prop, path)
+        if kind.startswith("pidfile"):
+            from harness import check_pidfile
+            return _generic(check_pidfile.replay_case(rep), prop, path)
+        if kind.startswith("c06"):
+            print(json.dumps(rep, indent=1)[:6000])
+            return 0
+    except Exception:
+        import traceback
+        traceback.print_exc()
+        print("MACHINERY-FAILURE: replay raised")
+        return 2
     print(json.dumps(rep, indent=1)[:4000])
     return 0
